@@ -155,11 +155,17 @@ def base_scenario(rng: random.Random) -> dict[str, Any]:
     if tgt == src:
         tgt ^= 0x10
     return {"src": src, "tgt": tgt, "ver": rng.choice([1, 2, 3]), "act": rng.choice([0, 1, 0xE0]), "rar_code": 0x10, "rar_oem": None, "rar_delay": 0.01,
-            "pre_rar": [], "connect_timeout": rng.choice([None, 5.0]), "ops": [], "cuts": [], "bytewise": False}
+            "pre_rar": [], "connect_timeout": rng.choice([None, 5.0]), "ops": [], "cuts": [], "bytewise": False,
+            "dup": rng.choice([None, None, None, ("src_addr", "0x1"), ("target_addr", "0x2"), ("activation_type", "0x1" if rng.random() < 0.5 else "0xe1"), ("protocol_version", "1")])}
 
 
 def uri(sc: dict[str, Any]) -> str:
-    return f"doip://192.0.2.9:13400?src_addr={sc['src']:#x}&target_addr={sc['tgt']:#x}&activation_type={sc['act']:#x}&protocol_version={sc['ver']}"
+    u = f"doip://192.0.2.9:13400?src_addr={sc['src']:#x}&target_addr={sc['tgt']:#x}&activation_type={sc['act']:#x}&protocol_version={sc['ver']}"
+    if sc.get("dup"):
+        # a key written twice: the documented reading of a target URI is the first value
+        k, v = sc["dup"]
+        u += f"&{k}={v}"
+    return u
 
 
 # ---- run one scenario ---------------------------------------------------------------------------------
